@@ -7,7 +7,7 @@
 //!                         | i await on a run-on-wake executor (the waker polls the future inline on the waking thread)
 //!        Y<q>[body]<mode> future_sync     mode: a await | k<n> poll n times then drop
 //!        A<q>e<e><mode>  after(event e) mode as for F
-//!        U<q> suspend+await (resumer kept)   R resume   r drop the resumer
+//!        U<q> suspend+await (resumer kept)   u<q> suspend, the future is only awaited when R / r needs the resumer   R resume   r drop the resumer
 //!        E<e> fire event   O<g> open gate   X<q> drop this program's handle of object q
 //!        I<q>k<k> pipe_in stream k into object q   J<q>k<k>d<d> pipe stream k through q (depth d, 0 = default); output kept by the caller
 //!        G<k>n<n> produce n items on stream k   H<k> end stream k   N<n> consume n outputs (0 = until the end)   K drop the output stream
@@ -36,6 +36,7 @@ pub enum Op {
     FutSync(usize, Vec<Prim>, Mode),
     After(usize, usize, Mode),
     Suspend(usize),
+    SuspendLazy(usize),
     Resume,
     DropResumer,
     Fire(usize),
@@ -65,7 +66,7 @@ impl Program { pub fn nstreams(&self) -> usize { self.callers.iter().flatten().m
 impl Op {
     pub fn obj(&self) -> Option<usize> {
         match self {
-            Op::Desync(q, _) | Op::Sync(q, _) | Op::TrySync(q, _) | Op::FutDesync(q, _, _) | Op::FutSync(q, _, _) | Op::After(q, _, _) | Op::Suspend(q) | Op::DropObj(q) | Op::ExpectPanic(q) | Op::PipeIn(q, _) | Op::Pipe(q, _, _) => Some(*q),
+            Op::Desync(q, _) | Op::Sync(q, _) | Op::TrySync(q, _) | Op::FutDesync(q, _, _) | Op::FutSync(q, _, _) | Op::After(q, _, _) | Op::Suspend(q) | Op::SuspendLazy(q) | Op::DropObj(q) | Op::ExpectPanic(q) | Op::PipeIn(q, _) | Op::Pipe(q, _, _) => Some(*q),
             _ => None
         }
     }
@@ -101,6 +102,7 @@ pub fn fmt_op(o: &Op) -> String {
         Op::FutSync(q, b, m) => format!("Y{}{}{}", q, fmt_body(b), fmt_mode(m)),
         Op::After(q, e, m) => format!("A{}e{}{}", q, e, fmt_mode(m)),
         Op::Suspend(q) => format!("U{}", q),
+        Op::SuspendLazy(q) => format!("u{}", q),
         Op::Resume => "R".into(),
         Op::DropResumer => "r".into(),
         Op::Fire(e) => format!("E{}", e),
@@ -203,6 +205,7 @@ fn parse_op(cs: &[char], i: &mut usize) -> Result<Op, String> {
         'Y' => { let q = parse_num(cs, i)?; let b = parse_body(cs, i)?; Op::FutSync(q, b, parse_mode(cs, i)?) }
         'A' => { let q = parse_num(cs, i)?; if *i >= cs.len() || cs[*i] != 'e' { return Err("e expected".into()); } *i += 1; let e = parse_num(cs, i)?; Op::After(q, e, parse_mode(cs, i)?) }
         'U' => Op::Suspend(parse_num(cs, i)?),
+        'u' => Op::SuspendLazy(parse_num(cs, i)?),
         'R' => Op::Resume,
         'r' => Op::DropResumer,
         'E' => Op::Fire(parse_num(cs, i)?),
@@ -439,9 +442,9 @@ pub fn generate(p: &Profile, r: &mut Rng) -> Program {
             else { k -= p.w_fs;
             if k < p.w_after { let e = nev; nev += 1; fires.push(e); op = Op::After(q, e, fmode(r)); }
             else { k -= p.w_after;
-            if k < p.w_suspend { if has_resumer { op = Op::Resume; has_resumer = false; } else { op = Op::Suspend(q); has_resumer = true; } }
+            if k < p.w_suspend { if has_resumer { op = Op::Resume; has_resumer = false; } else { op = if r.chance(1, 3) { Op::SuspendLazy(q) } else { Op::Suspend(q) }; has_resumer = true; } }
             else { op = Op::DropObj(q); } } } } } } }
-            let op = if has_resumer && !matches!(op, Op::Suspend(_)) { match op { Op::Sync(q, b) => Op::Desync(q, b), Op::FutDesync(q, b, _) => Op::FutDesync(q, b, Mode::Detach), o => o } } else { op };
+            let op = if has_resumer && !matches!(op, Op::Suspend(_) | Op::SuspendLazy(_)) { match op { Op::Sync(q, b) => Op::Desync(q, b), Op::FutDesync(q, b, _) => Op::FutDesync(q, b, Mode::Detach), o => o } } else { op };
             ops.push(op);
         }
         if has_resumer { ops.push(if r.chance(1, 2) { Op::Resume } else { Op::DropResumer }); }
